@@ -40,7 +40,7 @@ let chunked_flags : bool list ref = ref []
 
 (* gun options: suffix of the keep-alive field  <0|1>[:tok.tok...]  (harness/cmd/hC09/opts.go); auto-tag (g..), redirect (r) and
    the http2 gun (2) have no counterpart in the model of Shoot: they never touch the request *)
-let parse_ka (s : string) : bool * shoot_opts * bool =
+let parse_ka (s : string) : bool * shoot_opts * string list =
   match String.split_on_char ':' s with
   | [] -> failwith "ka"
   | k :: rest ->
@@ -49,7 +49,21 @@ let parse_ka (s : string) : bool * shoot_opts * bool =
       let filter = if has "aa" then 0 else if has "aw" then 1 else 2 in
       (bool_of_field k,
        { o_answlog = has "aa" || has "aw" || has "ae"; o_filter = n_of_int filter; o_dump = has "d"; o_trace = has "t"; o_debug = has "v" },
-       has "r")
+       ts)
+
+let bytes_of_string (s : string) : n list = List.init (String.length s) (fun i -> n_of_int (Char.code s.[i]))
+
+(* the "[key: value]" line as the harness writes it in the case's style (suffix of the preload field: s "[k:v]", S "[  k \t:   v ]",
+   default "[k: v]"), decoded by the extracted model of util.DecodeHeader: what the model of the merge sites is fed with *)
+let decode_kv (style : int) ((k, v) : n list * n list) : n list * n list =
+  let sp = n_of_int 32 and tab = n_of_int 9 in
+  let line = (match style with
+    | 1 -> header_line [] k [] [] v []
+    | 2 -> header_line [sp; sp] k [sp; tab] [sp; sp; sp] v [sp]
+    | _ -> header_line [] k [] [sp] v []) in
+  match decode_header line with
+  | Some kv -> kv
+  | None -> (bytes_of_string "model-refuses-header-line", line)
 
 let parse_item () : item =
   match next () with
@@ -70,7 +84,6 @@ let parse_item () : item =
       IEntry { e_method = m; e_uri = u; e_scheme = sc; e_urlhost = h; e_hdrs = hs; e_body = b }
   | s -> failwith ("item " ^ s)
 
-let bytes_of_string (s : string) : n list = List.init (String.length s) (fun i -> n_of_int (Char.code s.[i]))
 
 (* parse the observation's records *)
 let parse_obs (o : string) : (string * string * string * int * rc list) option =
@@ -118,13 +131,16 @@ let predict (c : string) (obs : string) : string * string * bool =
   | "wire" ->
       let f = parse_fmt (next ()) in
       let ssl = bool_of_field (next ()) in
-      let (ka, opts, _redirect) = parse_ka (next ()) in
+      let (ka, opts, gtoks) = parse_ka (next ()) in
+      let no_dns_cache = List.mem "c" gtoks and h2 = List.mem "2" gtoks in
       let (inst, sc) = (match String.split_on_char ':' (next ()) with
                         | [i] -> (int_of_string i, parse_sc "n")
                         | i :: s :: _ -> (int_of_string i, parse_sc s)
                         | [] -> failwith "instances") in
       let tgt = next () in
-      let _preload = next () in
+      let hstyle = (match String.split_on_char ':' (next ()) with
+                    | _ :: fl :: _ -> if String.contains fl 'S' then 2 else if String.contains fl 's' then 1 else 0
+                    | _ -> 0) in
       let _resp = next () in
       let pools = num () in
       let late = bool_of_field (next ()) in
@@ -137,18 +153,30 @@ let predict (c : string) (obs : string) : string * string * bool =
       chunked_flags := [];
       let items = List.init (num ()) (fun _ -> parse_item ()) in
       let chunked = List.rev !chunked_flags in
+      (* the model side reads the header lines through decode_header; the specification takes key and value as the user means them *)
+      let cfg_m = List.map (decode_kv hstyle) cfg in
+      let items_m = List.map (function IHdr (k, v) -> let (k', v') = decode_kv hstyle (k, v) in IHdr (k', v') | it -> it) items in
       let gk k = { g_ssl = ssl; g_target_host = bytes_of_string (if tgt = "name" then "localhost" else "127.0.0.1");
                    g_resolved = bytes_of_string ("T" ^ string_of_int k) } in
       (* every pool delivers the file [passes] times *)
       let ks = List.concat (List.init passes (fun _ -> List.init pools (fun k -> k))) in
       let string_of_bytes (l : n list) = String.concat "" (List.map (fun c -> String.make 1 (Char.chr (int_of_n c))) l) in
+      (* HTTP/2 (gun type http2) carries cookies as crumbs: the target sees ONE Cookie value, the non-empty values joined by "; "
+         (RFC 7540 8.1.2.5; none when all are empty).  Applied to the model's and to the specification's rendering alike. *)
+      let h2_cookie (hs : (string * string list) list) : (string * string list) list =
+        if not h2 then hs else
+        List.concat_map (fun (k, vs) ->
+          if k <> hx (bytes_of_string "Cookie") then [(k, vs)]
+          else match List.filter (fun v -> v <> "-" && v <> "") vs with
+               | [] -> []
+               | l -> [(k, [String.concat "3b20" l])]) hs in
       let of_wire (w : wire) : rc =
         { srv = string_of_bytes w.w_addr; tls = field_of_bool w.w_tls; meth = hx w.w_method;
-          uri = hx w.w_uri; host = hx w.w_host; body = hx w.w_body; hdrs = rc_of_hmap w.w_hdrs } in
+          uri = hx w.w_uri; host = hx w.w_host; body = hx w.w_body; hdrs = h2_cookie (rc_of_hmap w.w_hdrs) } in
       (* code-shaped model: Shoot under the case's gun options (Model/HttpShoot.v); a broken request never arrives *)
       let model = List.concat_map (fun k ->
           List.concat (List.map2 (fun r ch -> match shoot_wire opts (gk k) f ch r with Some w -> [of_wire w] | None -> [])
-                         (file_requests canon_mime f cfg [] items) chunked)) ks in
+                         (file_requests canon_mime f cfg_m [] items_m) chunked)) ks in
       (* specification, entry by entry with the in-file headers in scope *)
       let sp = List.concat_map (fun k -> List.map of_wire (file_spec canon_mime f cfg [] (gk k) items)) ks in
       (* canonical keys that both the entry (any entry of the file / in-file header) and the configuration define *)
@@ -179,7 +207,7 @@ let predict (c : string) (obs : string) : string * string * bool =
                  (* follow-ups of redirects (gun option redirect: true) are requests at the target as well *)
                  let fu = (match fu with [x] -> x | _ -> 0) in
                  let nt = List.length (List.filter (fun r -> String.length r.srv > 0 && r.srv.[0] = 'T') recs) in
-                 let want_probes = if tgt = "name" && not late then pools else 0 in
+                 let want_probes = if tgt = "name" && not late && not no_dns_cache then pools else 0 in
                  let good = probes = want_probes
                    && conn_ok ka sc.sc_enabled (nat_of_int (inst * pools)) (nat_of_int nt) (nat_of_int carrying)
                    && fu >= 0
